@@ -83,8 +83,8 @@ CLAIMED.update({
  "C12": ("randomized concurrency testing (schedule sampling) under the Go race detector: rapid-generated multi-client sessions over real sockets; oracle = per-connection ordering/exactly-once invariants over the delivery history, bounded-time shutdown, goroutine-leak and socket checks",
          "Hundreds (quick) to thousands (thorough) of generated sessions (1..24 clients x 0..60 messages, behaviours all/abrupt/idle/dribble, tcp/udp/tls, GOMAXPROCS 2/4/16, Stop after or during the traffic): per client exactly 0..n-1 in order over tcp/tls (increasing subsequence over udp), payloads never mixed between connections, connection count back to 0, Stop returns, no collector goroutine or bound socket afterwards, race detector silent. Schedules are sampled; a bug needing one specific interleaving may be missed.",
          "trusted: Go race detector; 30 s liveness bounds (normal: ms); the consumer drains continuously", "DESIGN.md section 3 C12 and section 5"),
- "C13": ("randomized concurrency testing (schedule sampling) under the Go race detector: rapid-generated concurrent programs (ingesting goroutines per reporting stream, worker pool, scans, queries, virtual-time shifts); oracle = conservation of delta counters, per-node final state, callback-count and GetNumFlows bounds over the history",
-         "Hundreds (quick) to thousands (thorough) of generated programs with up to 6 ingesting goroutines (two of them per inter-node flow) or the built-in worker pool, and up to 6 goroutines scanning/querying/shifting time: for every stream and delta counter, ingested = exported in callbacks + remaining (no lost or doubled update), per-node totals and end times equal the stream's last record, no flow exported more often than time advanced, GetNumFlows within the certainly/possibly created bounds, Stop returns, race detector silent. Linearizability is checked through these order-independent invariants, not by exhaustive history checking; schedules are sampled.",
+ "C13": ("randomized concurrency testing (schedule sampling) under the Go race detector: rapid-generated concurrent programs (ingesting goroutines per reporting stream, worker pool, scans, queries, virtual-time shifts); oracle = conservation of delta counters, per-node final state, callback-count and GetNumFlows bounds over the history, plus porcupine linearizability checking of small recorded histories against a sequential specification",
+         "Hundreds (quick) to thousands (thorough) of generated programs with up to 6 ingesting goroutines (two of them per inter-node flow) or the built-in worker pool, and up to 6 goroutines scanning/querying/shifting time: for every stream and delta counter, ingested = exported in callbacks + remaining (no lost or doubled update), per-node totals and end times equal the stream's last record, no flow exported more often than time advanced, GetNumFlows within the certainly/possibly created bounds, Stop returns, race detector silent. Small histories (2..4 goroutines x 1..6 operations) are additionally checked for linearizability with porcupine against a sequential specification. Schedules are sampled.",
          "trusted: Go race detector; the workload keeps each reporting stream in order (the library drops records older than the stream's latest by design)", "DESIGN.md section 3 C13 and section 5"),
 })
 HOOK_COMMITS = ["bde829d", "7b897fc", "836c091"]
